@@ -10,6 +10,8 @@ import (
 	"path/filepath"
 	"sort"
 	"strings"
+	"sync"
+	"syscall"
 	"time"
 
 	pb "github.com/ipfs/boxo/ipld/unixfs/pb"
@@ -154,7 +156,22 @@ func hasOther(t *TreeSpec) bool {
 	return false
 }
 
+// the importer must not need a descriptor per entry: imports run with a soft limit of 512 open files
+// (the widest directories here have 4 096 entries)
+var lowFDs sync.Once
+
+func lowerFDLimit() {
+	lowFDs.Do(func() {
+		var rl syscall.Rlimit
+		if syscall.Getrlimit(syscall.RLIMIT_NOFILE, &rl) == nil && (rl.Cur > 512 || rl.Cur == 0) {
+			rl.Cur = 512
+			syscall.Setrlimit(syscall.RLIMIT_NOFILE, &rl)
+		}
+	})
+}
+
 func runImportCase(ic *ImportCase, tr *Tr) error {
+	lowerFDLimit()
 	d, err := os.MkdirTemp("", "vh-import-")
 	if err != nil {
 		return err
